@@ -10,6 +10,7 @@ pub mod c08;
 pub mod c09;
 pub mod c13;
 pub mod c14;
+pub mod c17;
 
 pub fn run(ctx: &mut Ctx) -> bool {
     match ctx.prop.as_str() {
@@ -23,6 +24,7 @@ pub fn run(ctx: &mut Ctx) -> bool {
         "C09" => c09::run(ctx),
         "C13" => c13::run(ctx),
         "C14" => c14::run(ctx),
+        "C17" => c17::run(ctx),
         _ => return false,
     }
     true
